@@ -356,6 +356,12 @@ class PublicWrappers(Unit):
 
 
 UNITS = [NodeStep(), VertexSpacing(), EdgeAssign(), AugmentFrame(), MinimalDelaySubstitution(), PublicWrappers()]
+
+
+def all_units():
+    """+ the sampling contract of the delay distributions the generator draws from (imported late: c15 -> c10 -> c12)"""
+    from .c15 import StaticSample
+    return UNITS + [StaticSample()]
 EXTRA = dict(assumptions=["jax.lax.scan / vmap fold and batch the verified bodies (assumed); acyclicity follows from time order (vertex after its predecessor, edge to a step starting at/after arrival): written argument",
                           "the scan carry of the edge assignment assumes arrivals in send order; with jittery communication delays a message can be overtaken and is then assigned one step late "
                           "(confirmed on the real code in the design phase; recorded in DESIGN 7 as an observation - the per-call obligations proved here are conditional on the carry)"])
@@ -372,7 +378,7 @@ def check(tier, seed):
                                        "receive >= sender end, every message assigned to the first step starting at / strictly after its arrival, edges forward in time, augment keeps existing arrays bit for bit")]
     for l in ev.get("known_finding_lines", []):
         print(l)
-    code = check_property("C12", UNITS, tier, seed, extra=extra)
+    code = check_property("C12", all_units(), tier, seed, extra=extra)
     if lines:
         for l in lines:
             print(l)
